@@ -10,7 +10,11 @@ R(S) == {RandomElement(S)}
 Pick(seq) == seq[RandomElement(1..Len(seq))]
 
 (* steer towards the interesting region: L1 heads near the local head, deliveries of recent
-   events, interruptions in about a third of the prunes *)
+   events, interruptions in about a third of the prunes; numbers far below the initial chain
+   (Base > 0) are of no interest.  The lazy initialisation of the event index (InitFilter) is one
+   of the alternatives after a restart, so that prunes run before and after it; a new block or a
+   revert needs it done. *)
+Lo == Max2(0, Base - 3)
 SimNext ==
   IF pc.active THEN \E o \in {IF ~EnableInterrupts THEN "ok"
                               ELSE IF pc.cancelled \/ svc = "down" THEN Pick(<<"ok", "ok", "ok", "crash">>)
@@ -18,12 +22,14 @@ SimNext ==
   ELSE IF ~alive THEN Restart
   ELSE \/ \E y \in R(BOOLEAN) : NewBlock(y)
        \/ Revert
-       \/ LET c == (disk.l1 + 1)..MaxL1 IN c # {} /\ \E n \in R(c) : SetL1(n)
-       \/ LET c == {x \in (disk.l1 + 1)..MaxL1 : x <= disk.height + 1 /\ x + 4 >= disk.height} IN
+       \/ InitFilter
+       \/ InitFilter
+       \/ LET c == Max2(disk.l1 + 1, Lo)..MaxL1 IN c # {} /\ \E n \in R(c) : SetL1(n)
+       \/ LET c == {x \in Max2(disk.l1 + 1, Lo)..MaxL1 : x <= disk.height + 1 /\ x + 4 >= disk.height} IN
             c # {} /\ \E n \in R(c) : SetL1(n)
-       \/ \E b \in R(Nums) : DeliverHead(b)
+       \/ \E b \in R(Lo..MaxH) : DeliverHead(b)
        \/ DeliverHead(disk.height)
-       \/ \E n \in R(0..MaxL1) : DeliverL1(n)
+       \/ \E n \in R(Lo..MaxL1) : DeliverL1(n)
        \/ disk.l1 >= 0 /\ DeliverL1(disk.l1)
        \/ disk.l1 >= 0 /\ DeliverL1(disk.l1)
        \/ Sample
@@ -36,17 +42,18 @@ SortedSeq(S) == LET RECURSIVE F(_)
 Proj(d) ==
   [height |-> d.height, l1 |-> d.l1, hdr |-> SortedSeq(d.hdr), com |-> SortedSeq(d.com), su |-> SortedSeq(d.su),
    txs |-> SortedSeq(d.txs), h2n |-> SortedSeq(d.h2n), txl |-> SortedSeq(d.txl), hist |-> SortedSeq(d.hist),
-   oldest |-> Oldest(d)]
+   oldest |-> Oldest(d), win |-> SortedSeq(WinFroms(d))]
 
 Step ==
   /\ SimNext
-  /\ hist' = Append(hist, [a |-> act', res |-> res', post |-> Proj(disk'), floor |-> floor', svc |-> svc'])
+  /\ hist' = Append(hist, [a |-> act', res |-> res', post |-> Proj(disk'), floor |-> floor', svc |-> svc',
+                           rfinit |-> rf'.init])
 
 Done == steps >= MaxSteps /\ ~pc.active /\ alive
 
 Emit ==
   /\ PrintT(ToJson(hist))
-  /\ disk' = InitDisk /\ yf' = InitH + 1 /\ floor' = SeedFloor(InitDisk) /\ pending' = 0
+  /\ disk' = InitDisk /\ rf' = InitFill.rf /\ yf' = InitH + 1 /\ floor' = SeedFloor(InitDisk) /\ pending' = 0
   /\ sampled' = IF MinAge /\ InitH >= 0 THEN InitH ELSE 0
   /\ svc' = "up" /\ alive' = TRUE /\ pc' = Idle /\ keepMax' = 0 /\ dirty' = FALSE /\ err' = "none" /\ steps' = 0
   /\ act' = [name |-> "Init", n |-> 0, outcome |-> "ok"] /\ res' = [kind |-> "ok", muts |-> 0]
